@@ -28,7 +28,7 @@ JUNK = ["this is not assembly at all !!! ((( \n", "mov r0,\n\"unterminated\n", "
 
 def plan(tier, seed):
     n = 16 if tier == "quick" else 48
-    total = 1500 if tier == "quick" else 30000
+    total = 1500 if tier == "quick" else 120000
     return [{"part": i, "parts": n, "seed": seed, "tier": tier, "count": total // n} for i in range(n)]
 
 
